@@ -56,6 +56,9 @@ pub struct FaultCfg {
     pub slow_thread_p: f64,
     pub slow_point_p: f64,
     pub slow_max_ms: u64,
+    /// upper bound on the stall time injected into one thread (0 = none): harnesses whose oracle
+    /// waits a bounded simulated time for quiescence must bound the delays they inject themselves
+    pub stall_budget_ms: u64,
 }
 
 #[derive(Debug, Clone, PartialEq)]
@@ -153,6 +156,7 @@ struct Th {
     gate: Arc<Gate>,
     panicked: bool,
     slow: bool,
+    stalled_ms: u64,
 }
 
 #[derive(Debug, Clone, Default)]
@@ -282,6 +286,7 @@ impl Runtime {
             gate,
             panicked: false,
             slow: false,
+            stalled_ms: 0,
         };
         let inner = Inner {
             cfg,
@@ -617,7 +622,12 @@ impl SimRuntime for Handle {
             p = g.cfg.faults.slow_point_p;
             max = g.cfg.faults.slow_max_ms;
         }
+        let budget = g.cfg.faults.stall_budget_ms;
+        if budget > 0 && g.threads[me as usize].stalled_ms >= budget && !matches!(g.cfg.sched, Sched::Explicit) {
+            p = 0.0;
+        }
         if let Some(ms) = Runtime::draw_fault(&mut g, "stall", p, max) {
+            g.threads[me as usize].stalled_ms += ms;
             *g.stats.faults.entry("stall".into()).or_insert(0) += 1;
             let now = g.now_us;
             let t = &mut g.threads[me as usize];
@@ -682,6 +692,7 @@ impl SimRuntime for Handle {
             }),
             panicked: false,
             slow,
+            stalled_ms: 0,
         });
         id
     }
